@@ -136,12 +136,26 @@ package cafs
 //@   call verificationKey#1 bind verify = $ret0
 //@   ensures [checksum] ret1 == nil ==> checksum_set && verify_set && verify == checksum
 
+// the blob read under a root key is accepted only as the root entry of THAT object: its trailing key is
+// the requested key (F4 on the original code: any internally consistent root entry was accepted) and
+// the leaf keys hash to it
 //@ func leavesForHash
 //@   call bytesFromRoot#1 assert [of-hash] $hash == hash && $blobs == blobs && $prefix == prefix
 //@   call bytesFromRoot#1 bind b = $ret0
-//@   call verifiedKeys#1 assert [verifies-blob] b_set && $data == b && $leafSize == leafSize
-//@   call verifiedKeys#1 bind vk = $ret1
+//@   call LeafKeys#1 assert [verifies-blob-against-request] b_set && $data == b && $leafSize == leafSize && $root == hash
+//@   call LeafKeys#1 bind vk = $ret1
 //@   ensures [verified] ret1 == nil ==> vk_set && vk == nil
+
+//@ func LeafKeys
+//@   call verificationKey#1 assert [of-data] $data == data
+//@   call verificationKey#1 bind trailing = $ret0
+//@   call verificationKey#1 bind te = $ret1
+//@   call verifiedKeys#1 assert [same-blob] $data == data && $leafSize == leafSize
+//@   call verifiedKeys#1 bind vk = $ret1
+//@   call Equal#1 assert [request-against-trailing-key] arr($0) == addrof(root) && off($0) == 0 && len($0) == 64 && arr($1) == addrof(verify) && off($1) == 0 && len($1) == 64 && trailing_set && verify == trailing && root#1 == root
+//@   call Equal#1 bind same = $ret0
+//@   ensures [names-the-requested-object] ret1 == nil ==> trailing_set && te == nil && same_set && same
+//@   ensures [checksummed] ret1 == nil ==> vk_set && vk == nil
 
 //@ func leaves
 //@   loop 1 invariant [step] 0 <= i && i % 64 == 0
